@@ -1,4 +1,5 @@
 import inspect
+import threading
 from typing import Callable, Optional, Dict, Any, TypeVar, List
 from .datastructures import ImmutableDict
 from .functional import represent, multi, distinct_add
@@ -18,6 +19,11 @@ class TypeRegistry:
                  ):
         self._registry = []
         self._cache = {}
+        # registrations are published as a whole (a new list, never changed in place) and counted,
+        # so that a lookup racing with a registration neither sees a half-sorted list
+        # nor caches what it found in the list that has just been replaced
+        self._lock = threading.Lock()
+        self._generation = 0
 
         self.name = name
         self.cache = cache
@@ -75,12 +81,16 @@ class TypeRegistry:
         def decorator(f):
             if not self.validator(f):
                 raise TypeError(f'Invalid register target: {f}, must pass <{self.validator}> validate')
-            self._registry.insert(0, (detector, f, priority))
-            # always keep the registry ordered by priority (the sort is stable, so the latest
-            # registration still wins among equal priorities), and drop resolutions cached
-            # before this registration
-            self._registry.sort(key=lambda v: -v[2])
-            self._cache.clear()
+            with self._lock:
+                # drop resolutions cached before this registration (no lookup can fill
+                # the cache again before the lock is released)
+                self._cache.clear()
+                # always keep the registry ordered by priority (the sort is stable, so the latest
+                # registration still wins among equal priorities)
+                registry = [(detector, f, priority)] + self._registry
+                registry.sort(key=lambda v: -v[2])
+                self._registry = registry
+                self._generation += 1
             return f
 
         # before runtime, type will be compiled and applied
@@ -100,11 +110,15 @@ class TypeRegistry:
             cached = self._cache.get(t)
             if cached is not None:
                 return cached
+        generation = self._generation
         for detector, trans, priority in self._registry:
             try:
                 if detector(t):
                     if self.cache:
-                        self._cache[t] = trans
+                        with self._lock:
+                            # only remember what was found in the list that is still in effect
+                            if generation == self._generation:
+                                self._cache[t] = trans
                     return trans
             except (TypeError, ValueError):
                 continue
